@@ -156,7 +156,7 @@ def compare(spec, recipe, lib_dis, lib_idx):
         probs.append(f"{int(extra.sum())} combination(s) above the cut are present, e.g. {t} with disorder "
                      f"{table[t]:.6g} > {cut}")
     have = got > 0
-    bad = have & ~(np.abs(gotval - table) <= 1e-4 * np.maximum(1.0, np.abs(table)))
+    bad = have & ~(np.abs(gotval - table) <= 1e-4 * np.maximum(min(1.0, cut), np.abs(table)))
     bad[null] = False
     if bad.any():
         t = tuple(int(x) for x in np.argwhere(bad)[0])
@@ -255,9 +255,13 @@ def shards(tier, seed):
     return tasks
 
 
+# delta_empty far from 1: everything the cut is compared with scales with it (an absolute slack does not)
+TINY = [{"k": "pos", "de": 1e-5}, {"k": "comb", "a": 1.0, "b": 1.0, "de": 1e-6}, {"k": "pos", "de": 1e6}]
+
+
 def recipes_for(labels, full):
     D = A.menu(labels, full)
-    return D
+    return D + (TINY if full else TINY[:2])
 
 
 def run(task):
